@@ -159,9 +159,10 @@ def run_property(prop, module, root, tier, seed):
     replay = None
     if new and status != 2:
         status = 1
+    evdir = os.environ.get('GILINT_EVIDENCE_DIR') or os.path.join(VERIF, 'evidence')
     if new:
-        os.makedirs(os.path.join(VERIF, 'evidence', 'replay'), exist_ok=True)
-        replay = os.path.join(VERIF, 'evidence', 'replay', '%s.json' % prop)
+        os.makedirs(os.path.join(evdir, 'replay'), exist_ok=True)
+        replay = os.path.join(evdir, 'replay', '%s.json' % prop)
         with open(replay, 'w') as fh:
             json.dump({'property': prop, 'root': root, 'tier': tier,
                        'rerun': '/venv/bin/python -m gilint %s --tier %s --root %s' % (prop, tier, root),
@@ -210,8 +211,8 @@ def run_property(prop, module, root, tier, seed):
         'violations': len(new),
     }
     ev['coverage'].update(ctx.extra)
-    os.makedirs(os.path.join(VERIF, 'evidence'), exist_ok=True)
-    with open(os.path.join(VERIF, 'evidence', '%s.json' % prop), 'w') as fh:
+    os.makedirs(evdir, exist_ok=True)
+    with open(os.path.join(evdir, '%s.json' % prop), 'w') as fh:
         json.dump(ev, fh, indent=1, sort_keys=True)
     print('%s tier=%s root=%s rules=%d obligations=%d failed=%d known=%d wall=%.2fs exit=%d'
           % (prop, tier, root, len(ctx.rules), obligations, failed, len(listed), time.time() - t0, status))
